@@ -58,7 +58,9 @@ type jDest struct {
 }
 
 type jOStep struct {
-	Op      string            `json:"op"` // start | release | cancel | inject
+	Op      string            `json:"op"`             // start | release | cancel | inject | remap
+	Map     map[string]uint16 `json:"map,omitempty"`  // remap: the membership map the application returns from now on
+	MapPre  map[string]uint16 `json:"_map,omitempty"` // (replay files) a remap folded into the step that follows it
 	SID     int               `json:"sid"`
 	Plan    *jPlan            `json:"plan,omitempty"`
 	Inject  *jInject          `json:"inject,omitempty"`
@@ -100,6 +102,7 @@ type oSession struct {
 
 type orchWorld struct {
 	mu          sync.Mutex
+	membership  map[UniversalID]PartyID // what the application's Membership function returns now
 	p           *party
 	sc          *jOrchScenario
 	sess        map[int]*oSession
@@ -226,7 +229,7 @@ func (s *orchSync) Synchronize(ctx context.Context, f func([]uint16), topic []by
 func orchTopicName(i int) string { return fmt.Sprintf("sign-topic-%d", i) }
 
 func newOrchWorld(id int, self uint16, t int, membership map[UniversalID]PartyID) *orchWorld {
-	w := &orchWorld{sess: map[int]*oSession{}, signals: make(chan string, 64), keys: map[string]string{}, byTopic: map[string]int{},
+	w := &orchWorld{membership: membership, sess: map[int]*oSession{}, signals: make(chan string, 64), keys: map[string]string{}, byTopic: map[string]int{},
 		byTopic2: map[string]int{}, beSID: map[*scriptedBackend]int{}, keygen: -1}
 	w.sc = &jOrchScenario{Kind: "orch", ID: id, Self: self, Threshold: t, Membership: map[string]uint16{}, Steps: []jOStep{}}
 	for u, p := range membership {
@@ -245,7 +248,11 @@ func newOrchWorld(id int, self uint16, t int, membership map[UniversalID]PartyID
 			p.mu.Lock()
 			defer p.mu.Unlock()
 			p.sends = append(p.sends, sendRec{Type: msgType, Topic: append([]byte(nil), topic...), Data: append([]byte(nil), msg...), To: append([]uint16(nil), to...)})
-		}, func() map[UniversalID]PartyID { return membership })
+		}, func() map[UniversalID]PartyID {
+			w.mu.Lock()
+			defer w.mu.Unlock()
+			return w.membership
+		})
 	p.scheme = mp.(*threshold.Scheme)
 	p.scheme.SyncFactory = func(members []uint16, _ func(msg []byte), _ func(msg []byte, to uint16)) Synchronizer {
 		return &orchSync{w: w, given: members}
@@ -549,6 +556,20 @@ func (w *orchWorld) cancelSession(sid int) jOStep {
 	return st
 }
 
+// remap: the application's Membership function returns another map from now on (only between sessions: the orchestrator
+// reads the map at the start of KeyGen / Sign and keeps it for that session)
+func (w *orchWorld) remap(m map[UniversalID]PartyID) jOStep {
+	st := jOStep{Op: "remap", SID: -1, Map: map[string]uint16{}}
+	for u, p := range m {
+		st.Map[fmt.Sprint(uint16(u))] = uint16(p)
+	}
+	w.mu.Lock()
+	w.membership = m
+	w.mu.Unlock()
+	w.snapshot(&st)
+	return st
+}
+
 func (w *orchWorld) inject(in jInject) jOStep {
 	st := jOStep{Op: "inject", SID: -1, Inject: &in}
 	var topic []byte
@@ -585,21 +606,25 @@ func runOrchHistory(r *prng, id int) *jOrchScenario {
 	if r.chance(1, 3) {
 		nodes = []uint16{255, 256, 257, 513, 65280, 65535}
 	}
-	mp := map[UniversalID]PartyID{}
-	mode := r.intn(4)
-	perm := r.distinctIDs(6, false)
-	for i, u := range nodes {
-		switch mode {
-		case 0:
-			mp[UniversalID(u)] = PartyID(u)
-		case 1:
-			mp[UniversalID(u)] = PartyID(uint16(100 + i))
-		case 2:
-			mp[UniversalID(u)] = PartyID(perm[i])
-		default:
-			mp[UniversalID(u)] = PartyID(uint16(10 + i/2)) // two replicas per party
+	mkMap := func() map[UniversalID]PartyID {
+		mp := map[UniversalID]PartyID{}
+		mode := r.intn(4)
+		perm := r.distinctIDs(6, false)
+		for i, u := range nodes {
+			switch mode {
+			case 0:
+				mp[UniversalID(u)] = PartyID(u)
+			case 1:
+				mp[UniversalID(u)] = PartyID(uint16(100 + i))
+			case 2:
+				mp[UniversalID(u)] = PartyID(perm[i])
+			default:
+				mp[UniversalID(u)] = PartyID(uint16(10 + i/2)) // two replicas per party
+			}
 		}
+		return mp
 	}
+	mp := mkMap()
 	self := nodes[r.intn(len(nodes))]
 	t := 1 + r.intn(2)
 	w := newOrchWorld(id, self, t, mp)
@@ -629,8 +654,20 @@ func runOrchHistory(r *prng, id int) *jOrchScenario {
 		sort.Slice(l, func(i, j int) bool { return l[i] < l[j] })
 		return l
 	}
+	quiet := func() bool { // no session is running, waiting at a gate or lingering in a synchroniser
+		for _, se := range w.sess {
+			if se.result == "" || se.at == "gate" || se.at == "initgate" || se.at == "s2linger" {
+				return false
+			}
+		}
+		return true
+	}
 	for i := 0; i < steps; i++ {
 		c := r.intn(100)
+		if len(w.sess) > 0 && quiet() && r.chance(1, 4) {
+			// the application re-assigns parties between sessions
+			w.sc.Steps = append(w.sc.Steps, w.remap(mkMap()))
+		}
 		switch {
 		case c < 40:
 			plan := jPlan{SID: nextSID, Kind: "sign", Topic: r.intn(3), Members: pickMembers(), S1: "ok", S1Then: "ok", S2OK: true, Be: "block", ShareOK: true}
